@@ -639,7 +639,73 @@ def special_leading_varargs(res):
         dropmod("tlg_c10_lead")
 
 
-SPECIALS = {"twin-modules": special_twin_modules, "leading-varargs": special_leading_varargs}
+_DECO_SRC = """
+import functools
+
+def passthrough(f):
+    @functools.wraps(f)
+    def inner(*args, **kwargs):
+        return f(*args, **kwargs)
+    return inner
+
+def twice(f):
+    return passthrough(passthrough(f))
+
+@passthrough
+def deco(a: int, b: float = 1.5, *rest: int, **kw: float):
+    return ("deco", a, b, rest, kw)
+
+@twice
+def deco2(a: int, /, *, k: float = 0.5):
+    return ("deco2", a, k)
+
+class Host:
+    @passthrough
+    def meth(self, a: int, b: float = 1.5):
+        return ("meth", a, b)
+"""
+
+
+def special_decorated(res):
+    """callables behind functools.wraps pass-through decorators: inspect.signature follows __wrapped__, so the parameters
+    (and their annotations) are those of the decorated function"""
+    cold.clear_all()
+    m = mkmod("tlg_c10_deco", _DECO_SRC)
+    try:
+        h = m.Host()
+        table = [
+            ("deco", m.deco, (("1",), {}), ("deco", 1, 1.5, (), {})),
+            ("deco", m.deco, (("1", "2", "3"), {"z": "4"}), ("deco", 1, 2.0, (3,), {"z": 4.0})),
+            ("deco", m.deco, ((), {"a": "1", "b": "2"}), ("deco", 1, 2.0, (), {})),
+            ("deco2", m.deco2, (("1",), {"k": "2"}), ("deco2", 1, 2.0)),
+            ("deco2", m.deco2, (("1",), {}), ("deco2", 1, 0.5)),
+            ("meth", h.meth, (("1", "2"), {}), ("meth", 1, 2.0)),
+            ("meth", h.meth, (("1",), {"b": "2"}), ("meth", 1, 2.0)),
+        ]
+        for api in ("bind", "wrap"):
+            for name, target, (a, k), exp in table:
+                cold.clear_all()
+                res.programs += 1
+                res.evals += 1
+                res.hit(f"special:decorated:{api}:{name}")
+                b = gcall(getattr(typelib.binding, api), target)
+                out = gcall(b.val, *a, **k) if b.ok else b
+                key = h64("deco", api, name, repr(a), repr(k), out.ok, repr(out.val) if out.ok else out.excname)
+                res.outcomes.add(key)
+                if out.ok:
+                    res.nontrivial.add(key)
+                if not (out.ok and fsame(out.val, exp)):
+                    got = repr(out.val) if out.ok else f"raises {out.excname}: {str(out.exc)[:80]}"
+                    res.violation(
+                        f"C10/special/decorated-with-functools-wraps/{name}/" + ("unconverted" if out.ok else "raises:" + out.excname),
+                        f"{api}() of `{name}` (behind a functools.wraps pass-through decorator; inspect.signature reports the decorated function's parameters), called with {a!r} {k!r}: got {got}, expected {exp!r}",
+                        {"special": "decorated"},
+                    )
+    finally:
+        dropmod("tlg_c10_deco")
+
+
+SPECIALS = {"twin-modules": special_twin_modules, "leading-varargs": special_leading_varargs, "decorated": special_decorated}
 
 
 def _masks_full_first(n, masks):
